@@ -44,7 +44,7 @@ WaitFold(ev, i, s) ==
               WaitFold(ev, i + 1, [s EXCEPT !.m = m2, !.ever = s.ever \/ (s.started /\ AllReady(m2)),
                                             !.stable = IF AllReady(m2) THEN s.stable ELSE 0])
          ELSE IF e.e = "start"
-         THEN WaitFold(ev, i + 1, [s EXCEPT !.started = TRUE, !.ever = AllReady(s.m)])
+         THEN WaitFold(ev, i + 1, [s EXCEPT !.started = TRUE, !.ever = AllReady(s.m), !.first = s.cancelled])
          ELSE IF e.e = "cancel"
          THEN WaitFold(ev, i + 1, [s EXCEPT !.cancelled = TRUE, !.since = 0])
          ELSE IF e.e = "sleep"
@@ -56,10 +56,13 @@ WaitFold(ev, i, s) ==
                   bad3 == IF e.state = "pending" /\ s.started /\ ~s.cancelled /\ s.stable >= 1 THEN {"NeverCloses"} ELSE {}
                   bad4 == IF e.state = "pending" /\ s.cancelled /\ s.since >= 1 THEN {"CancelIgnored"} ELSE {}
                   bad5 == IF e.state = "closed" /\ s.cancelled /\ ~s.ever THEN {"ClosedAfterCancel"} ELSE {}
-              IN WaitFold(ev, i + 1, [s EXCEPT !.bad = s.bad \cup bad1 \cup bad2 \cup bad3 \cup bad4 \cup bad5])
+                  \* the context was cancelled before the wait started: the waiter was cancelled first and must say so,
+                  \* ready or not
+                  bad6 == IF e.state = "closed" /\ s.first THEN {"ClosedThoughCancelledFirst"} ELSE {}
+              IN WaitFold(ev, i + 1, [s EXCEPT !.bad = s.bad \cup bad1 \cup bad2 \cup bad3 \cup bad4 \cup bad5 \cup bad6])
 
 WaitChecks(r) ==
-    WaitFold(r.events, 1, [m |-> [c \in Comps |-> "absent"], started |-> FALSE, ever |-> FALSE, cancelled |-> FALSE,
+    WaitFold(r.events, 1, [m |-> [c \in Comps |-> "absent"], started |-> FALSE, ever |-> FALSE, cancelled |-> FALSE, first |-> FALSE,
                            stable |-> 0, since |-> 0, bad |-> {}])
 
 Checks(r) ==
